@@ -56,6 +56,7 @@ type CompactionResult struct {
 func (db *DB) compact(sourceSeg *segment) (CompactionResult, error) {
 	cr := CompactionResult{}
 
+	verifYield(2)
 	db.mu.Lock()
 	sourceSeg.meta.Full = true // Prevent writes to the compacted file.
 	db.mu.Unlock()
@@ -67,6 +68,7 @@ func (db *DB) compact(sourceSeg *segment) (CompactionResult, error) {
 	// Copy records from sourceSeg to the current segment.
 	for {
 		err := func() error {
+			verifYield(3)
 			db.mu.Lock()
 			defer db.mu.Unlock()
 			rec, err := it.next()
@@ -93,6 +95,7 @@ func (db *DB) compact(sourceSeg *segment) (CompactionResult, error) {
 		}
 	}
 
+	verifYield(4)
 	db.mu.Lock()
 	defer db.mu.Unlock()
 	// The records copied to the current segment must be durable before their only other copy is removed.
@@ -144,6 +147,7 @@ func (db *DB) Compact() (CompactionResult, error) {
 		db.maintenanceMu.Unlock()
 	}()
 
+	verifYield(1)
 	db.mu.RLock()
 	segments := db.pickForCompaction()
 	db.mu.RUnlock()
